@@ -168,6 +168,69 @@ pub fn dispatch(f: &[&str]) -> String {
             }
             if leaks.is_empty() { "clean".into() } else { format!("leaks:{}", leaks.join("|")) }
         }
+        "addr.from_str" => {
+            let Some(s) = utf8(unhex(f[1])) else { return "invalid-utf8".into() };
+            match s.parse::<lettre::Address>() {
+                Ok(a) => {
+                    // the value must also report user/domain that rejoin, display and re-parse equal
+                    let re = a.to_string().parse::<lettre::Address>();
+                    let rt = if re.as_ref().ok() == Some(&a) && format!("{}@{}", a.user(), a.domain()) == s { "" } else { "\tROUNDTRIP-FAIL" };
+                    format!("ok\t{}\t{}{}", hex(a.user().as_bytes()), hex(a.domain().as_bytes()), rt)
+                }
+                Err(e) => format!("err\t{:?}", e),
+            }
+        }
+        "addr.new" => {
+            let (Some(u), Some(d)) = (utf8(unhex(f[1])), utf8(unhex(f[2]))) else { return "invalid-utf8".into() };
+            match lettre::Address::new(&u, &d) {
+                Ok(a) => format!("ok\t{}\t{}", hex(a.user().as_bytes()), hex(a.domain().as_bytes())),
+                Err(e) => format!("err\t{:?}", e),
+            }
+        }
+        "addr.oracles" => {
+            // answers of the three third-party oracles for this domain string
+            let Some(d) = utf8(unhex(f[1])) else { return "invalid-utf8".into() };
+            fn strip(d: &str) -> &str { d.strip_prefix('[').and_then(|x| x.strip_suffix(']')).unwrap_or(d) }
+            let idn = crate::oracles::idna_to_ascii(&d);
+            let ip1 = strip(&d).parse::<std::net::IpAddr>().is_ok();
+            let ip2 = idn.as_ref().map(|x| strip(x).parse::<std::net::IpAddr>().is_ok()).unwrap_or(false);
+            format!("{}\t{}\t{}", idn.as_ref().map(|x| hex(x.as_bytes())).unwrap_or_else(|| "!".into()), ip1 as u8, ip2 as u8)
+        }
+        "addr.serde" => {
+            // both serde shapes read back an equal value; returns "ok" or what differs
+            let Some(s) = utf8(unhex(f[1])) else { return "invalid-utf8".into() };
+            let Ok(a) = s.parse::<lettre::Address>() else { return "not-an-address".into() };
+            let j = serde_json::to_string(&a).unwrap();
+            let b: Result<lettre::Address, _> = serde_json::from_str(&j);
+            let obj = serde_json::json!({"user": a.user(), "domain": a.domain()}).to_string();
+            let c = std::panic::catch_unwind(|| serde_json::from_str::<lettre::Address>(&obj));
+            let s1 = b.ok() == Some(a.clone());
+            let s2 = match c { Ok(Ok(x)) => if x == a { "eq" } else { "ne" }, Ok(Err(_)) => "err", Err(_) => "panic" };
+            format!("{}\t{}", if s1 { "string-ok" } else { "string-FAIL" }, s2)
+        }
+        "envelope.new" => {
+            // Envelope::new(None, n recipients) and the serde path: never an empty recipient list
+            let n: usize = f[1].parse().unwrap();
+            let to: Vec<lettre::Address> = (0..n).map(|i| format!("r{i}@example.com").parse().unwrap()).collect();
+            let r = lettre::address::Envelope::new(None, to.clone());
+            let js = serde_json::json!({"forward_path": to.iter().map(|a| a.to_string()).collect::<Vec<_>>(), "reverse_path": null}).to_string();
+            let d: Result<lettre::address::Envelope, _> = serde_json::from_str(&js);
+            format!("{}\t{}", r.map(|e| e.to().len().to_string()).unwrap_or_else(|_| "err".into()), d.map(|e| e.to().len().to_string()).unwrap_or_else(|_| "err".into()))
+        }
+        "alnum.check" => {
+            // H_alnum: every alphanumeric char is an ASCII letter/digit or >= U+00AA
+            for c in 0u32..=0x10FFFF {
+                if let Some(ch) = char::from_u32(c) {
+                    if ch.is_alphanumeric() && !(ch.is_ascii_alphanumeric() || c >= 170) {
+                        return format!("counterexample {c}");
+                    }
+                    if ch.is_ascii_alphanumeric() && !ch.is_alphanumeric() {
+                        return format!("counterexample {c}");
+                    }
+                }
+            }
+            "ok".into()
+        }
         other => format!("UNKNOWN-FN {}", other),
     }
 }
